@@ -261,6 +261,9 @@ class FS:
         self.crossfs = None       # optional callable() -> bool: are the store's sub-trees / the temp directory /
         #                           the caller's files on different file systems? (rename and link across: EXDEV)
         self.logdebug = None      # optional callable() -> bool: is debug logging enabled in this deployment?
+        self.locale_utf8 = None   # optional callable() -> bool: is the process's default text encoding UTF-8?
+        #                           (asked when a text file is opened without an explicit encoding)
+        self.env_asked = set()    # which of these the code under test actually depended on
 
     # ---- injection points
     def _count(self, kind, path):
@@ -308,24 +311,49 @@ class FS:
             s = "/" + s.lstrip("/")
         return s
 
+    def rp(self, path):
+        """path resolution as the OS does it (no symbolic links): ".." steps back only from an existing directory;
+        a path that passes through something that is not a directory names nothing"""
+        s = _os.fspath(path)
+        if isinstance(s, bytes):
+            s = s.decode("utf8", "surrogateescape")
+        if len(s) > 1 and (s.endswith("/") or s.endswith("/.")):
+            base = self.rp(s.rstrip("/.") if s.rstrip("/.") else "/")
+            return base + "/." if self.b.isfile(base) else base      # "file/" names nothing
+        if ".." not in s:
+            return self.p(s)
+        parts = posixpath.join("/", s).split("/")
+        out = []
+        for n, comp in enumerate(parts):
+            if comp in ("", "."):
+                continue
+            if comp == "..":
+                if out:
+                    if not self.b.isdir("/" + "/".join(out)):
+                        return "/" + "/".join(out) + "/../" + "/".join(parts[n + 1:])      # names nothing
+                    out.pop()
+                continue
+            out.append(comp)
+        return "/" + "/".join(out)
+
     # ---- operations used by the shims
     def isfile(self, path):
-        path = self.p(path)
+        path = self.rp(path)
         self.probe("isfile", path)
         return self.b.isfile(path)
 
     def isdir(self, path):
-        path = self.p(path)
+        path = self.rp(path)
         self.probe("isdir", path)
         return self.b.isdir(path)
 
     def exists(self, path):
-        path = self.p(path)
+        path = self.rp(path)
         self.probe("exists", path)
         return self.b.isdir(path) or self.b.isfile(path)
 
     def makedirs(self, path, mode=0o777, exist_ok=False):
-        path = self.p(path)
+        path = self.rp(path)
         self.probe("isdir", path)
         if self.b.isdir(path) or self.b.isfile(path):
             self.tick("mkdir", path)          # os.makedirs issues mkdir(leaf) first; it fails with EEXIST
@@ -358,16 +386,18 @@ class FS:
             raise FileNotFoundError(errno.ENOENT, "No such file or directory", path)
 
     def remove(self, path):
-        path = self.p(path)
+        path = self.rp(path)
         self.tick("remove", path)
         if not self.b.isfile(path):
             if self.b.isdir(path):
                 raise IsADirectoryError(errno.EISDIR, "Is a directory", path)
             raise FileNotFoundError(errno.ENOENT, "No such file or directory", path)
+        open_here = [h for h in self.handles if not h._closed and h.name == path and not getattr(h, "_orphan", False)]
+        frozen = self.b.read(path) if open_here else None
         self.b.remove(path)
-        for h in self.handles:
-            if not h._closed and h.name == path:
-                h._orphan = True              # unlinked while open: later writes reach no name
+        for h in open_here:
+            h._orphan = True              # unlinked while open: later writes reach no name,
+            h._frozen = frozen            # reads still see the file that was open
 
     @staticmethod
     def area(path):
@@ -382,8 +412,8 @@ class FS:
             raise OSError(errno.EXDEV, "Invalid cross-device link", src)
 
     def rename(self, src, dst):
-        src = self.p(src)
-        dst = self.p(dst)
+        src = self.rp(src)
+        dst = self.rp(dst)
         self.tick("rename", dst)
         self._xdev(src, dst)
         if not self.b.isfile(src):
@@ -391,16 +421,19 @@ class FS:
         self._need_parent(dst)
         if self.b.isdir(dst):
             raise IsADirectoryError(errno.EISDIR, "Is a directory", dst)
+        over = [h for h in self.handles if not h._closed and h.name == dst and not getattr(h, "_orphan", False)]
+        frozen = self.b.read(dst) if over and self.b.isfile(dst) else None
         self.b.rename(src, dst)
         for h in self.handles:
             if not h._closed:
-                if h.name == dst:
-                    h._orphan = True          # the file it had open was replaced
-                elif h.name == src:
+                if h in over:
+                    h._orphan = True          # the file it had open was replaced;
+                    h._frozen = frozen        # reads still see the file that was open
+                elif h.name == src and not getattr(h, "_orphan", False):
                     h.name = dst
 
     def link(self, src, dst):
-        src, dst = self.p(src), self.p(dst)
+        src, dst = self.rp(src), self.rp(dst)
         self.tick("link", dst)
         if self.hardlinks is not None and not self.hardlinks():
             raise PermissionError(errno.EPERM, "Operation not permitted (file system without hard links)", src)
@@ -413,7 +446,7 @@ class FS:
         self.b.link(src, dst)
 
     def rmdir(self, path):
-        path = self.p(path)
+        path = self.rp(path)
         self.tick("rmdir", path)
         if not self.b.isdir(path):
             if self.b.isfile(path):
@@ -424,7 +457,7 @@ class FS:
         self.b.rmdir1(path)
 
     def removedirs(self, path):
-        path = self.p(path)
+        path = self.rp(path)
         self.rmdir(path)
         head = posixpath.dirname(path)
         while head and head != "/":
@@ -435,14 +468,14 @@ class FS:
             head = posixpath.dirname(head)
 
     def listdir(self, path):
-        path = self.p(path)
+        path = self.rp(path)
         self.probe("listdir", path)
         if not self.b.isdir(path):
             raise FileNotFoundError(errno.ENOENT, "No such file or directory", path)
         return self.b.listdir(path)
 
     def getsize(self, path):
-        path = self.p(path)
+        path = self.rp(path)
         self.probe("stat", path)
         if not self.b.isfile(path):
             if self.b.isdir(path):
@@ -451,15 +484,15 @@ class FS:
         return len(self.b.read(path))
 
     def chmod(self, path, mode):
-        path = self.p(path)
+        path = self.rp(path)
         self.tick("chmod", path)
         if not (self.b.isfile(path) or self.b.isdir(path)):
             raise FileNotFoundError(errno.ENOENT, "No such file or directory", path)
 
     def move(self, src, dst):
         """shutil.move for regular files: rename, and on OSError the stdlib's copy + unlink fallback."""
-        src = self.p(src)
-        dst = self.p(dst)
+        src = self.rp(src)
+        dst = self.rp(dst)
         self.probe("isdir", dst)
         real_dst = dst
         if self.b.isdir(dst):
@@ -494,11 +527,14 @@ class FakeFile(_io.BufferedIOBase):
     _enc, _errors, _newline = "utf8", "strict", None      # text handles: codec and newline mode as in open()
 
     def __init__(self, fs, path, mode, encoding=None, errors=None, newline=None):
-        path = FS.p(path)
+        path = fs.rp(path)
         self._fs = fs
         self.name = path
         self.mode = mode
         self._text = "b" not in mode
+        if self._text and encoding is None and fs.locale_utf8 is not None:
+            fs.env_asked.add("locale")
+            encoding = "utf8" if fs.locale_utf8() else "ascii"      # a legacy / "C" locale
         self._enc, self._errors, self._newline = encoding or "utf8", errors or "strict", newline
         base = mode.replace("b", "").replace("t", "")
         self._pending = []
@@ -545,6 +581,8 @@ class FakeFile(_io.BufferedIOBase):
 
     # -- buffer plumbing
     def _cur(self):
+        if getattr(self, "_orphan", False) and getattr(self, "_frozen", None) is not None:
+            return self._frozen
         return self._fs.b.read(self.name)
 
     def _sync(self):
@@ -601,7 +639,7 @@ class FakeFile(_io.BufferedIOBase):
             self._pos = len(self._cur()) + pos
         return self._pos
 
-    def _readbytes(self, n=-1):
+    def _readbytes(self, n=-1, point=True):
         self._chk()
         self._sync()
         buf = self._cur()
@@ -609,6 +647,8 @@ class FakeFile(_io.BufferedIOBase):
             n = len(buf) - self._pos
         d = buf[self._pos:self._pos + n]
         self._pos += len(d)
+        if point:
+            self._fs.probe("read", self.name)     # a scheduling point: what is done with the block comes later
         return d
 
     def _tokens(self):
@@ -659,6 +699,12 @@ class FakeFile(_io.BufferedIOBase):
 
     def read1(self, n=-1):
         return self.read(n)
+
+    def readinto(self, b):
+        d = self._readbytes(len(b), point=False)
+        b[:len(d)] = d
+        self._fs.probe("read", self.name)         # ... after the caller's buffer was filled
+        return len(d)
 
     def readline(self, limit=-1):
         if self._text:
@@ -824,7 +870,7 @@ class Shim:
 
         def _stat_fn(p):
             F = H.fs
-            p = FS.p(p)
+            p = H.fs.rp(p)
             F.probe("stat", p)
             if F.b.isfile(p):
                 return _Stat(len(F.b.read(p)), F.blksize)
@@ -895,7 +941,7 @@ class Shim:
 
         def os_open(path, flags, mode=0o777, *a, **k):
             F = H.fs
-            p = FS.p(path)
+            p = H.fs.rp(path)
             acc = flags & (_os.O_WRONLY | _os.O_RDWR)
             if flags & _os.O_CREAT:
                 F.tick("create" if not F.b.isfile(p) else "open-w", p)
